@@ -41,6 +41,9 @@ def register(reg):
     register_circumradius(reg)
     register_shape_circumradius(reg)
     register_minimum_distance(reg)
+    register_bounding_polygon(reg)
+    register_footprint_contains_object(reg)
+    register_circumradius_shape_arms(reg)
 
 
 def hypot_of(eng, name, sqsum):
@@ -748,4 +751,362 @@ def register_minimum_distance(reg):
             replay=replay,
             properties=("C04",),
         )
+    )
+
+
+# ===================================================================================================
+# Extension: Object._boundingPolygon (planar boxes), PolygonalFootprintRegion.containsObject, and the `_scaledShape` /
+# `_shape` arms of MeshVolumeRegion._circumradius
+#
+# Oracle (property statement): every internal shortcut -- planar-box bounding polygon, convex / convex-hull fast path of
+# the footprint containment test, precomputed per-shape circumradius -- gives the same answer as the exhaustive
+# computation: the bounding polygon of a planar box is the rectangle position + R(yaw) (+-w/2, +-l/2) (K-prism); an object
+# lies in a footprint exactly when every point of its projection lies in the polygon; the region lies within the ball of
+# radius _circumradius about its position (K1).
+
+
+def ensure_trig(I):
+    """math.cos / math.sin as attributes of the module `math`: the abstract functions of A2 (pyvc/models_shapely.py)."""
+    mm = I.modules["math"]
+    if "cos" not in mm.attrs:
+        mm.attrs["cos"] = BuiltinFn("math.cos", lambda x: MS.cos(I, x))
+    if "sin" not in mm.attrs:
+        mm.attrs["sin"] = BuiltinFn("math.sin", lambda x: MS.sin(I, x))
+
+
+def register_bounding_polygon(reg):
+    OBJ = lambda: repo_class(f"{OT}:Object")
+    SIGNS = ((1, 1), (-1, 1), (-1, -1), (1, -1))  # cyclic order of _corners2D
+
+    def setup(I, env):
+        eng = I.eng
+        ensure_trig(I)
+        planar = eng.choose(2, "planar box?") == 1
+        o = PObj(OBJ(), tag="self")
+        init_samplable(o)
+        pos = tuple(eng.fresh_real(f"position.{c}") for c in "xyz")
+        w, l, yaw = eng.fresh_real("width"), eng.fresh_real("length"), eng.fresh_real("yaw")
+        eng.assume(sv_and(compare(">", w, 0), compare(">", l, 0)))
+        eng.input_syms.append(("planar", C.Const(None), planar))
+        eng.input_syms.append(("position", C.TupleOf(C.Real(), C.Real(), C.Real()), pos))
+        for n, v in (("width", w), ("length", l), ("yaw", yaw)):
+            eng.input_syms.append((n, C.Real(), v))
+        ori = PObj("Orientation", tag="self.orientation")
+        ori.fields.update(yaw=yaw, pitch=0, roll=0)
+        space = PObj(RC("MeshVolumeRegion"), tag="self.occupiedSpace")
+        init_samplable(space)
+        space.fields["_boundingPolygon"] = MS.make_geom(I, "Polygon", empty=False, tag="occupiedSpace._boundingPolygon")
+        o.fields.update(_isPlanarBox=planar, position=make_vector(*pos), width=w, length=l, orientation=ori, occupiedSpace=space)
+        env.vars.update(self=o, _planar=planar, _pos=pos, _w=w, _l=l, _yaw=yaw)
+
+    def post(I, env, outcome):
+        eng = I.eng
+        oname = "object_types.Object._boundingPolygon"
+        if outcome[0] != "return":
+            return
+        res, o = outcome[1], env.vars["self"]
+        if not env.vars["_planar"]:
+            eng.check(f"{oname}#default.exact_projection_of_the_occupied_space", res is o.fields["occupiedSpace"].fields["_boundingPolygon"])
+            return
+        rings = res.fields.get("_rings") if MS.is_geom(res) else None
+        ok = rings is not None and len(rings[0]) == 4 and not rings[1]
+        eng.check(f"{oname}#fastpath.returns_a_quadrilateral", ok)
+        if not ok:
+            return
+        pos, w, l, yaw = env.vars["_pos"], env.vars["_w"], env.vars["_l"], env.vars["_yaw"]
+        c, s = MS.cos(I, yaw), MS.sin(I, yaw)
+        hw, hl = arith("/", w, 2), arith("/", l, 2)
+        acc = []
+        for (sx, sy), got in zip(SIGNS, rings[0]):
+            dx, dy = arith("*", sx, hw), arith("*", sy, hl)
+            want = (arith("+", pos[0], arith("-", arith("*", c, dx), arith("*", s, dy))), arith("+", pos[1], arith("+", arith("*", s, dx), arith("*", c, dy))))
+            acc.append(sv_and(compare("==", got[0], want[0]), compare("==", got[1], want[1])))
+        eng.check(f"{oname}#fastpath.corners_are_position_plus_rotation_by_yaw_of_the_half_extents", sv_and(*acc))
+
+    def replay(inputs, clause):
+        import math
+        import warnings
+
+        warnings.filterwarnings("ignore")
+        from scenic.core.object_types import Object
+        from scenic.core.vectors import Vector
+
+        cases = [((1.0, -2.0, 0.5), 2.0, 5.0, 0.0), ((0.0, 0.0, 0.0), 1.0, 3.0, math.radians(90)), ((-3.0, 4.0, 1.0), 0.7, 2.2, math.radians(37)), ((2.0, 2.0, 0.0), 4.0, 1.0, -2.5)]
+        try:
+            cases.insert(0, (tuple(float(x) for x in inputs["position"]), float(inputs["width"]), float(inputs["length"]), float(inputs["yaw"])))
+        except Exception:
+            pass
+        for pos, w, l, yaw in cases:
+            o = Object._with(position=Vector(*pos), width=w, length=l, height=1.0, yaw=yaw)
+            got = [tuple(p) for p in o._boundingPolygon.exterior.coords][:-1]
+            c, s = math.cos(yaw), math.sin(yaw)
+            want = [(pos[0] + c * sx * w / 2 - s * sy * l / 2, pos[1] + s * sx * w / 2 + c * sy * l / 2) for sx, sy in SIGNS]
+            if len(got) != 4 or any(math.dist(a, b) > 1e-9 * max(1.0, abs(w), abs(l), *map(abs, pos)) for a, b in zip(got, want)):
+                return f"planar box at {pos}, width {w}, length {l}, yaw {yaw}: _boundingPolygon has vertices {[tuple(round(x, 6) for x in p) for p in got]}; position + R(yaw) (+-w/2, +-l/2) = {[tuple(round(x, 6) for x in p) for p in want]}"
+            exact = o.occupiedSpace._boundingPolygon
+            if exact.symmetric_difference(o._boundingPolygon).area > 1e-6 * max(1.0, w * l):
+                return f"planar box at {pos}, width {w}, length {l}, yaw {yaw}: the fast-path polygon differs from the projection of the occupied space by area {exact.symmetric_difference(o._boundingPolygon).area:.4g}"
+        return None
+
+    reg.add(C.Contract(f"{OT}:Object._boundingPolygon", params=dict(self=C.Const(None)), setup=setup, post=post, inline_all=True, replay=replay, note="relative to G-affine (shapely.affinity.affine_transform) and A2 (trigonometry)", properties=("C04",)))
+
+
+def register_footprint_contains_object(reg):
+    reg.trust("K-hull", "the projected convex hull of an object's mesh (occupiedSpace._boundingPolygonHull) contains the object's exact bounding polygon (its projection); for convex objects `_boundingPolygon` is the projection")
+
+    def setup(I, env):
+        eng = I.eng
+        convex = eng.choose(2, "convex object?") == 1
+        eng.input_syms.append(("convex", C.Const(None), convex))
+        S = PObj(RC("PolygonalFootprintRegion"), tag="self")
+        init_samplable(S)
+        P = MS.make_geom(I, "MultiPolygon", empty=False, tag="self.polygons")
+        S.fields.update(polygons=P, orientation=None, name=None)
+        B = MS.make_geom(I, "Polygon", empty=False, tag="obj._boundingPolygon")  # the exact projection of the object
+        H = MS.make_geom(I, "Polygon", empty=False, tag="obj.hull")
+        MS.world(I).add_fact(lambda x, y: sv_implies(MS.gmem(B, x, y), MS.gmem(H, x, y)))  # K-hull
+        obj = PObj(repo_class(f"{OT}:Object"), tag="obj")
+        init_samplable(obj)
+        space = PObj(RC("MeshVolumeRegion"), tag="obj.occupiedSpace")
+        init_samplable(space)
+        space.fields.update(_boundingPolygonHull=H, _boundingPolygon=B)
+        obj.fields.update(_isConvex=convex, shape=PObj("Shape", tag="obj.shape"), _boundingPolygon=B, occupiedSpace=space)
+        obj.fields["shape"].fields["isConvex"] = convex
+        env.vars.update(self=S, obj=obj, _P=P, _B=B, _H=H, _p=probe(I))
+
+    def post(I, env, outcome):
+        eng = I.eng
+        oname = "regions.PolygonalFootprintRegion.containsObject"
+        if outcome[0] != "return":
+            return
+        res, P, B, p = outcome[1], env.vars["_P"], env.vars["_B"], env.vars["_p"]
+        ok = isinstance(res, (bool, SV))
+        eng.check(f"{oname}#ensures.returns_a_truth_value", ok)
+        if not ok:
+            return
+        # inside(obj, footprint) <=> every point of the object's projection lies in the polygon
+        eng.check(f"{oname}#ensures.true_only_if_every_point_of_the_projection_lies_in_the_polygon", sv_implies(sv_and(res, MS.gmem(B, p[0], p[1])), MS.gmem(P, p[0], p[1])))
+        wit = [(r, w) for (a, b, r, w) in getattr(MS.world(I), "contains_log", []) if a is P and b is B]
+        if wit:
+            r, (cx, cy) = wit[-1]
+            eng.check(f"{oname}#ensures.false_only_if_some_point_of_the_projection_lies_outside_the_polygon", sv_implies(sv_not(res), sv_and(MS.gmem(B, cx, cy), sv_not(MS.gmem(P, cx, cy)))))
+        else:
+            # the exact projection was never tested: `False` cannot be justified
+            eng.check(f"{oname}#ensures.false_only_if_some_point_of_the_projection_lies_outside_the_polygon", res)
+
+    def replay(inputs, clause):
+        import warnings
+
+        warnings.filterwarnings("ignore")
+        import shapely
+        import shapely.geometry as sg
+        import trimesh
+
+        from scenic.core.object_types import Object
+        from scenic.core.regions import PolygonalRegion
+        from scenic.core.shapes import BoxShape, MeshShape
+        from scenic.core.vectors import Vector
+
+        L = trimesh.creation.extrude_polygon(sg.Polygon([(0, 0), (4, 0), (4, 1), (1, 1), (1, 4), (0, 4)]), 1.0)
+        Lshape = MeshShape(L)
+        square_with_hole = sg.Polygon([(-10, -10), (10, -10), (10, 10), (-10, 10)], [[(-1, -1), (-1, 1), (1, 1), (1, -1)]])
+        notch = sg.Polygon([(-3, -3), (3, -3), (3, -0.5), (-0.5, -0.5), (-0.5, 3), (-3, 3)])  # contains the L prism at the origin (its arms hug the notch) but not its convex hull
+        conts = [("square with a hole at the origin", square_with_hole), ("square with the upper-right quadrant cut out", notch), ("small square", sg.Polygon([(-1.5, -1.5), (1.5, -1.5), (1.5, 1.5), (-1.5, 1.5)]))]
+        objs = []
+        for pos in ((5, 5, 0), (0, 0, 0), (1.8, 1.8, 0), (0, 0, 3)):
+            objs.append((f"box 1x2x1 at {pos}", dict(position=Vector(*pos), shape=BoxShape(), width=1, length=2, height=1, yaw=0.4)))
+            objs.append((f"L-shaped prism 2.4x2.4x1 at {pos}", dict(position=Vector(*pos), shape=Lshape, width=2.4, length=2.4, height=1, yaw=0)))
+            objs.append((f"L-shaped prism 2.4x2.4x1 at {pos}, yaw 180 deg", dict(position=Vector(*pos), shape=Lshape, width=2.4, length=2.4, height=1, yaw=3.141592653589793)))
+            objs.append((f"tilted box at {pos}", dict(position=Vector(*pos), shape=BoxShape(), width=1, length=1, height=3, pitch=0.6)))
+        for cname_, poly in conts:
+            F = PolygonalRegion(polygon=poly).footprint
+            for oname_, kw in objs:
+                o = Object._with(**kw)
+                tris = o.occupiedSpace.mesh.triangles
+                proj = shapely.unary_union([t for t in (sg.Polygon(t[:, :2]) for t in tris) if t.area > 1e-12])
+                inside, clearly_out = poly.buffer(1e-7).contains(proj), proj.difference(poly).area > 1e-6
+                if inside == (not clearly_out):
+                    got = bool(F.containsObject(o))
+                    if got != inside:
+                        return f"footprint of the {cname_}, {oname_}: containsObject = {got}, but the projection of the object (union of its projected faces, area {proj.area:.4g}) {'lies in' if inside else f'sticks out of'} the polygon{'' if inside else f' by area {proj.difference(poly).area:.4g}'}"
+        return None
+
+    reg.add(
+        C.Contract(
+            f"{RG}:PolygonalFootprintRegion.containsObject",
+            params=dict(self=C.Const(None), obj=C.Const(None)),
+            setup=setup,
+            post=post,
+            inline_all=True,
+            replay=replay,
+            note="relative to G-contains (shapely) and K-hull; the polygons themselves (trimesh projection, convex hull) are kernels",
+            properties=("C04",),
+        )
+    )
+
+
+def register_circumradius_shape_arms(reg):
+    NV = 2
+    reg.trust("A-rotation-norm", "a rotation preserves the Euclidean norm: |R u| = |u| (R = the rotation matrix of an Orientation)")
+    reg.trust("T-transform", "MeshRegion.mesh is the input mesh under compose_matrix(scale, angles, translate): vertex u -> position + R (s * u) component-wise, scale s = dimensions / input extents (absent: 1); the mesh of a Shape has unit extents (MeshShape.__init__ scales it to unit size) and _scaledShape is the Shape's mesh scaled to the object's dimensions, unrotated, at the origin")
+    RX = [z3.Function(f"rot.{c}", _R, _R, _R, _R) for c in "xyz"]
+
+    def rot(eng, u):
+        args = [toz3(c, want_real=True) for c in u]
+        v = tuple(SV(f(*args), True) for f in RX)
+        eng.assume(compare("==", arith("+", arith("+", sq(v[0]), sq(v[1])), sq(v[2])), arith("+", arith("+", sq(u[0]), sq(u[1])), sq(u[2]))))  # A-rotation-norm
+        return v
+
+    def setup(I, env):
+        eng = I.eng
+        arm = ["_scaledShape", "_shape with dimensions", "_shape without dimensions"][eng.choose(3, "arm")]
+        eng.input_syms.append(("arm", C.Const(None), arm))
+        S = PObj(RC("MeshVolumeRegion"), tag="self")
+        init_samplable(S)
+        pos = tuple(eng.fresh_real(f"position.{c}") for c in "xyz")
+        eng.input_syms.append(("position", C.TupleOf(C.Real(), C.Real(), C.Real()), pos))
+        us = [tuple(eng.fresh_real(f"u{i}.{c}") for c in "xyz") for i in range(NV)]  # vertices of the precomputed mesh
+        for i, u in enumerate(us):
+            eng.input_syms.append((f"u{i}", C.TupleOf(C.Real(), C.Real(), C.Real()), u))
+        rpre = eng.fresh_real("precomputed._circumradius")
+        eng.input_syms.append(("precomputed_circumradius", C.Real(), rpre))
+        # contract of the precomputed radius (fallback arm at position 0 / Shape._circumradius): every vertex within it of the origin
+        eng.assume(sv_and(compare(">=", rpre, 0), *[compare("<=", dist3sq(u, (0, 0, 0)), sq(rpre)) for u in us]))
+        inmesh = MS.make_mesh(I, "self._mesh")
+        dims = None
+        if arm == "_scaledShape":
+            pre = PObj(RC("MeshVolumeRegion"), tag="self._scaledShape")
+            init_samplable(pre)
+            pre.fields.update(_circumradius=rpre)
+            shape = PObj(repo_class("scenic.core.shapes:MeshShape"), tag="self._shape")
+            shape.fields.update(_circumradius=eng.fresh_real("shape._circumradius"))
+            S.fields.update(_scaledShape=pre, _shape=shape, dimensions=None)
+            scaled = us
+        else:
+            shape = PObj(repo_class("scenic.core.shapes:MeshShape"), tag="self._shape")
+            shape.fields.update(_circumradius=rpre)
+            inmesh.fields["extents"] = MS.NDArr((3,), [1.0, 1.0, 1.0])  # T-transform: unit extents
+            if arm == "_shape with dimensions":
+                dims = tuple(eng.fresh_real(f"dimensions.{k}") for k in range(3))
+                eng.assume(sv_and(*[compare(">", d, 0) for d in dims]))
+                eng.input_syms.append(("dimensions", C.TupleOf(C.Real(), C.Real(), C.Real()), dims))
+                scaled = [tuple(arith("*", d, c) for d, c in zip(dims, u)) for u in us]
+            else:
+                scaled = us
+            S.fields.update(_scaledShape=None, _shape=shape, dimensions=dims)
+        vs = [tuple(arith("+", p, c) for p, c in zip(pos, rot(eng, su))) for su in scaled]  # T-transform
+        mesh = MS.make_mesh(I, "self.mesh")
+        mesh.fields["vertices"] = MS.NDArr((NV, 3), [list(v) for v in vs])
+        S.fields.update(mesh=mesh, _mesh=inmesh, position=make_vector(*pos), orientation=None, name=None)
+        env.vars.update(self=S, _vs=vs, _pos=pos, _arm=arm, _us=us, _dims=dims, _rpre=rpre, _scaled=scaled)
+
+    def post(I, env, outcome):
+        eng = I.eng
+        if outcome[0] != "return":
+            return
+        r, arm = outcome[1], env.vars["_arm"]
+        oname = "regions.MeshVolumeRegion._circumradius"
+        ok = isinstance(r, (int, float, SV))
+        eng.check(f"{oname}#ensures.returns_a_number[{arm}]", ok)
+        if not ok:
+            return
+        dims, us, rpre = env.vars["_dims"], env.vars["_us"], env.vars["_rpre"]
+        if dims is not None:
+            # lemmas (proved, then used), phrased over names for the non-linear quantities so that the last step is linear:
+            # with m = max(d) >= d_k > 0: (d_k u_k)^2 <= m^2 u_k^2 per axis, hence |D u|^2 <= m^2 |u|^2 <= (m r0)^2 = r^2, and
+            # |v - position| = |R (D u)| = |D u| (A-rotation-norm)
+            def named(label, expr):
+                n = eng.fresh_real(label)
+                eng.assume(compare("==", n, expr))
+                return n
+
+            facts = []
+
+            def lemma(label, f, linear=False):
+                if linear:
+                    # a step that follows from the lemmas already proved alone: discharged from those (a subset of the
+                    # hypotheses, hence sound), which keeps the non-linear definitions out of the solver's way
+                    saved = list(eng.pc)
+                    eng.pc[:] = list(facts)
+                    try:
+                        eng.check(f"{oname}#lemma.{label}", f)
+                    finally:
+                        eng.pc[:] = saved
+                else:
+                    eng.check(f"{oname}#lemma.{label}", f)
+                eng.assume(f)
+                facts.append(tobool(f))
+
+            m = dims[0]
+            for d in dims[1:]:
+                m = sv_ite(compare(">=", d, m), d, m)
+            m = named("largest_dimension", m)
+            lemma("largest_dimension_bounds_every_dimension", sv_and(compare(">", m, 0), *[compare("<=", d, m) for d in dims]))
+            m2 = named("largest_dimension_squared", sq(m))
+            E = named("bound_squared", arith("*", m2, sq(rpre)))
+            Q = named("radius_squared", sq(r))
+            lemma("radius_is_the_largest_dimension_times_the_unit_radius", sv_and(compare("==", r, arith("*", m, rpre)), compare(">=", r, 0)))
+            lemma("squared_radius", compare("==", Q, E))
+            for i, u in enumerate(us):
+                su = env.vars["_scaled"][i]
+                comp = []
+                for k, ax in enumerate("xyz"):
+                    uk2 = named(f"u{i}.{ax}.squared", sq(u[k]))
+                    sk2 = named(f"scaled.u{i}.{ax}.squared", sq(su[k]))
+                    lemma(f"scaled_component_bounded_by_the_largest_dimension[v{i}.{ax}]", compare("<=", sk2, arith("*", m2, uk2)))
+                    comp.append((uk2, sk2))
+                U = named(f"u{i}.norm.squared", arith("+", arith("+", comp[0][0], comp[1][0]), comp[2][0]))
+                Sn = named(f"scaled.u{i}.norm.squared", arith("+", arith("+", comp[0][1], comp[1][1]), comp[2][1]))
+                MU = named(f"bound.u{i}", arith("*", m2, U))
+                lemma(f"scaled_vertex_norm_bounded_by_the_largest_dimension_times_the_norm[v{i}]", compare("<=", Sn, MU))
+                lemma(f"unit_vertex_within_the_unit_radius[v{i}]", compare("<=", U, sq(rpre)))
+                lemma(f"largest_dimension_times_the_unit_radius_bounds_the_scaled_vertex[v{i}]", compare("<=", MU, E))
+                N = named(f"v{i}.distance.squared", dist3sq(env.vars["_vs"][i], env.vars["_pos"]))
+                lemma(f"rotation_and_translation_preserve_the_distance_to_the_position[v{i}]", compare("==", N, Sn))
+                lemma(f"vertex_within_the_radius[v{i}]", compare("<=", N, Q), linear=True)
+        eng.check(f"{oname}#ensures.every_vertex_within_the_radius_of_the_position[{arm}]", sv_and(compare(">=", r, 0), *[compare("<=", dist3sq(v, env.vars["_pos"]), sq(r)) for v in env.vars["_vs"]]))
+
+    def replay(inputs, clause):
+        import math
+        import warnings
+
+        warnings.filterwarnings("ignore")
+        import numpy
+        import trimesh
+
+        from scenic.core.object_types import Object
+        from scenic.core.regions import MeshVolumeRegion
+        from scenic.core.shapes import BoxShape, ConeShape, MeshShape
+        from scenic.core.vectors import Orientation, Vector
+
+        wedge = trimesh.convex.convex_hull(numpy.array([[-1, -1, -0.1], [-1, 1, -0.1], [-1, -1, 0.1], [-1, 1, 0.1], [1, 0, 0]], dtype=float))
+        shapes = [("box", BoxShape()), ("cone", ConeShape()), ("wedge rotated 30/20/10 deg", MeshShape(wedge, initial_rotation=(math.radians(30), math.radians(20), math.radians(10))))]
+        poses = [((0.3, 0, 0), (0, 0, 0)), ((5, -2, 1), (0.7, 0.3, -0.4))]
+        dimss = [(4, 0.5, 2), (0.2, 3, 0.2)]
+        for sname, shape in shapes:
+            for pos, ang in poses:
+                for dims in dimss:
+                    o = Object._with(position=Vector(*pos), shape=shape, width=dims[0], length=dims[1], height=dims[2], yaw=ang[0], pitch=ang[1], roll=ang[2])
+                    regs = [("occupiedSpace (precomputed scaled shape)", o.occupiedSpace)]
+                    regs.append(("region with _shape only", MeshVolumeRegion(mesh=shape.mesh, dimensions=dims, position=Vector(*pos), rotation=o.orientation, centerMesh=False, _internal=True, _isConvex=shape.isConvex, _shape=shape)))
+                    for rname, Rg in regs:
+                        far = float(numpy.max(numpy.linalg.norm(Rg.mesh.vertices - numpy.array(pos), axis=1)))
+                        got = float(Rg._circumradius)
+                        if got < far - 1e-9 * max(1.0, far):
+                            return f"{sname} {dims} at {pos}, yaw/pitch/roll {ang}: {rname}._circumradius = {got:.6g} but a vertex of its mesh is {far:.6g} from its position, so the bounding-sphere pass of intersects (K1) can reject overlapping solids"
+        return None
+
+    reg.add(
+        C.Contract(
+            f"{RG}:MeshVolumeRegion._circumradius",
+            params=dict(self=C.Const(None)),
+            setup=setup,
+            post=post,
+            inline_all=True,
+            replay=replay,
+            bounded=True,
+            note="`_scaledShape` and `_shape` arms; mesh of 2 vertices (symbolic); relative to T-transform (how MeshRegion.mesh is obtained from the precomputed mesh) and A-rotation-norm",
+            properties=("C04",),
+        ),
+        key=f"{RG}:MeshVolumeRegion._circumradius[shape arms]",
     )
